@@ -864,6 +864,21 @@ def bool_transfer(body, bb, known, pins=None):
                     kv = _known_operand(t["args"][1], known)
                     if kv is not None and kv[0] == "i":
                         need = kv[1] + 1
+                    else:
+                        # `get(a..b)` with constant bounds (the range is built in this block): Some exactly when len >= b
+                        r_ = op_local(t["args"][1])
+                        for s_ in reversed(blk["stmts"]):
+                            if s_.get("s") == "assign" and s_["p"]["l"] == r_ and not s_["p"]["p"] and s_["rv"].get("r") == "agg":
+                                cs_ = [o_.get("k", {}).get("v") if isinstance(o_, dict) else None for o_ in s_["rv"].get("ops", [])]
+                                rn_ = str(s_["rv"].get("n", ""))
+                                if all(isinstance(c_, int) for c_ in cs_) and cs_:
+                                    if rn_.endswith("range::Range") and len(cs_) == 2 and cs_[0] <= cs_[1]:
+                                        need = cs_[1]
+                                    elif rn_.endswith("range::RangeTo") and len(cs_) == 1:
+                                        need = cs_[0]
+                                    elif rn_.endswith("range::RangeFrom") and len(cs_) == 1:
+                                        need = cs_[0]
+                                break
                 elif m_ in ("first_chunk", "split_first_chunk"):
                     cs = [str(x_.get("v", x_.get("s", ""))) if isinstance(x_, dict) else str(x_) for x_ in (t.get("f") or {}).get("a", [])]
                     ds_ = [int(c_) for c_ in cs if c_.isdigit()]
